@@ -272,6 +272,11 @@ def gen_long(ck, count, out, rng):
         r = rng.random()
         if r < 0.6:
             i = rng.randrange(n)
+            if rng.random() < 0.5:
+                # at, just before or just after a multiple of a plausible block size
+                edges = [k * B + d for B in (8, 16, 32, 64) for k in range(1, n // B + 1) for d in (-1, 0, 1)
+                         if 0 <= k * B + d < n]
+                i = rng.choice(edges)
             b[i] = rng.choice([c for c in al + EXTRA[ck][:2] if c != b[i]])
         elif r < 0.75:
             b = b[:rng.randint(n - 3, n)]
